@@ -20,7 +20,7 @@ def run(tier):
                          extra={"kind2": k2, "traps": False, "exporters": False}))
         cfgs.append(dict(kind=k1, n=4, cfg=dict(CFG, extras=False, read=False), hidden=False, d=0, assertions=0, judge="c18",
                          extra={"kind2": k2, "traps": False, "exporters": False}))
-    for fl in ("tree", "loop", "value"):
+    for fl in ("tree", "loop", "value", "assert"):
         cfgs.append(dict(kind="named:light", n=3, cfg=dict(CFG, extras=False), hidden=False, d=1, persistent=P2, assertions=0,
                          judge="c18", extra=extra, flavour=fl))
     if tier == "thorough":
